@@ -231,6 +231,24 @@ def workload(ctx, repo):
                 ctx.case = case
                 ctx.ev("cases.offset-grid")
                 run_case(ctx, repo, case)
+    # pairs less than a second apart (binary fractions of a second: exact)
+    for k in range(600 if ctx.tier == "quick" else 2400):
+        if not ctx.mine(k):
+            continue
+        mode = R.MODES[k % 4] if k % 3 == 0 else "gregorian"
+        y = gen.rand_year(rng, -500, 9000)
+        inst = gen.rand_rd(rng, mode, y, bias=0.5) * 86400 + rng.choice(
+            (0, 59, 3599, 86399, rng.randrange(86400)))
+        a = gen.tp_from_instant(rng, mode, inst, allow_2400=False)
+        b = gen.tp_from_instant(rng, mode, inst + rng.choice((0, 0, 1, -1)),
+                                allow_2400=False)
+        fa, fb = rng.sample((0.0, 0.25, 0.5, 0.75, 0.125, 0.875), 2)
+        a["second_of_minute_decimal"] = fa
+        b["second_of_minute_decimal"] = fb
+        case = {"op": "pair", "mode": mode, "a": a, "b": b}
+        ctx.case = case
+        ctx.ev("cases.sub-second-pair")
+        run_case(ctx, repo, case)
     n = 24000 if ctx.tier == "quick" else 60000
     for k in range(n):
         mode = rng.choice(R.MODES) if k % 2 else "gregorian"
